@@ -81,6 +81,7 @@ func subset(got map[string]bool, allowed []string) (bad []string) {
 
 func runC02(c *Ctx) {
 	p := c.P
+	checkWrapperNotTakenForPacket(c, "R9")
 	pos := func(in ssa.Instruction) string { return p.Pos(in.Pos()) }
 	handle := p.Func("handlePacket")
 	worker := p.Func("(*RequestServer).packetWorker")
